@@ -102,6 +102,12 @@ structure Cli where
   clientOpen : Bool := false
   /-- the client's last bytes were an incomplete frame (it can only disconnect now) -/
   partSent : Bool := false
+  /-- its socket is a member of `Server.clients` -/
+  tracked : Bool := false
+  /-- pool: its descriptor is a key of `fd_to_conn` -/
+  inFd : Bool := false
+  /-- pool: its descriptor is registered with `poll_object` -/
+  polled : Bool := false
   deriving Repr, Inhabited
 
 structure Cfg where
@@ -122,12 +128,6 @@ structure St where
   acceptAlive : Bool := true
   /-- the accept thread is occupied by this client (one-shot: serving it; pool: authenticating it) -/
   acceptBusy : Option Nat := none
-  /-- `Server.clients` -/
-  clientsSet : List Nat := []
-  /-- pool: `fd_to_conn` -/
-  fdToConn : List Nat := []
-  /-- pool: descriptors registered with `poll_object` -/
-  pollReg : List Nat := []
   /-- pool: `_active_connection_queue` (FIFO) -/
   queue : List Nat := []
   /-- pool: clients on which a worker is blocked in `stream.read` -/
@@ -211,6 +211,8 @@ def poolConsume : List Item → Cli → Nat → Cli × Nat
 
 /-! ### `Server.close` -/
 
+def St.mapCli (s : St) (f : Cli → Cli) : St := { s with cli := fun j => f (s.cli j) }
+
 /-- what `c.shutdown(SHUT_RDWR); c.close()` on a tracked socket does to the thread using it -/
 def shutOne (c : Cli) : Cli :=
   match c.phase with
@@ -221,36 +223,28 @@ def shutOne (c : Cli) : Cli :=
   | .authing => release c
   | _ => c
 
-def shutTracked : List Nat → St → St
-  | [], s => s
-  | k :: ks, s => shutTracked ks (s.set k (shutOne (s.cli k)))
-
-/-- connections still in the listen queue are reset by the kernel when the listener closes -/
-def resetBacklog : List Nat → St → St
-  | [], s => s
-  | k :: ks, s =>
-    if (s.cli k).phase = .backlog
-    then resetBacklog ks (s.set k { s.cli k with shut := true, phase := .done, inbox := [] })
-    else resetBacklog ks s
+/-- `Server.close()` as one client meets it: `for c in set(self.clients): c.shutdown(..); c.close()`, then
+`self.clients.clear()`; a connection still in the listen queue is reset by the kernel when the listener closes -/
+def closeEffect (c : Cli) : Cli :=
+  if c.tracked then { shutOne c with tracked := false }
+  else if c.phase = .backlog then { c with shut := true, phase := .done, inbox := [] }
+  else c
 
 /-- `Server.close()` -/
 def baseClose (s : St) : St :=
   if s.closedFlag then s
-  else resetBacklog s.ids
-        { shutTracked s.clientsSet s with
-          closedFlag := true, active := false, listening := false, acceptAlive := false,
-          acceptBusy := none, clientsSet := [] }
+  else { (s.mapCli closeEffect) with
+         closedFlag := true, active := false, listening := false, acceptAlive := false, acceptBusy := none }
 
-/-- `ThreadPoolServer._drop_connection` for every descriptor left in `fd_to_conn` -/
-def dropAll : List Nat → St → St
-  | [], s => { s with fdToConn := [] }
-  | k :: ks, s => dropAll ks (s.set k (endServe (s.cli k)))
+/-- `ThreadPoolServer._drop_connection`: `del fd_to_conn[fd]`, `conn.close()` (the poll registration is not touched) -/
+def dropEffect (c : Cli) : Cli := if c.inFd then { endServe c with inFd := false } else c
 
-/-- `ThreadPoolServer.close()`; `none` = it does not return: `w.join()` waits for a worker that is blocked
-in `stream.read` on a client whose socket is only shut down *after* the joins -/
+/-- `ThreadPoolServer.close()`: `Server.close`, join the poller, wake and join the workers, then drop every
+connection left in `fd_to_conn`; `none` = it does not return: `w.join()` waits for a worker that is blocked in
+`stream.read` on a client whose socket is only shut down *after* the joins -/
 def poolClose (s : St) : Option St :=
   if s.poolUp && !s.blocked.isEmpty then none
-  else some (dropAll (baseClose s).fdToConn { baseClose s with poolUp := false })
+  else some { ((baseClose s).mapCli dropEffect) with poolUp := false }
 
 /-! ### per-client serving -/
 
@@ -258,8 +252,8 @@ def poolClose (s : St) : Option St :=
 `OneShotServer._accept_method`'s `finally: self.close()` -/
 def afterEnd (s : St) (k : Nat) : St :=
   if s.cfg.kind = .oneshot
-  then baseClose { s with clientsSet := rm k s.clientsSet, acceptBusy := none, acceptAlive := false }
-  else { s with clientsSet := rm k s.clientsSet }
+  then baseClose { (s.set k { s.cli k with tracked := false }) with acceptBusy := none, acceptAlive := false }
+  else s.set k { s.cli k with tracked := false }
 
 def applyConsumed (s : St) (k : Nat) (r : Cli × Nat) : St :=
   if r.1.phase = .done then afterEnd { (s.set k r.1) with nextObj := r.2 } k
@@ -270,12 +264,13 @@ def runDedicated (s : St) (k : Nat) : St :=
   applyConsumed s k (consume (s.cli k).inbox (s.cli k) s.nextObj)
 
 /-- `_serve_client`: `service._connect` creates the service instance (a class is registered) and the
-connection, `on_connect` runs, then `serve_all` -/
+connection with its own tables, `on_connect` runs -/
 def built (s : St) (k : Nat) : St :=
   { (s.set k { s.cli k with inst := some s.nextInst, connOpen := true,
                             connHooks := (s.cli k).connHooks + 1, phase := .idle }) with
     nextInst := s.nextInst + 1, served := s.served + 1 }
 
+/-- ... then `serve_all` -/
 def serveClient (s : St) (k : Nat) : St := runDedicated (built s k) k
 
 /-- `_authenticate_and_serve_client` -/
@@ -285,25 +280,27 @@ def authServe (s : St) (k : Nat) : St :=
     | .good => serveClient s k
     -- AuthenticationError: logged, `return`; the `finally` shuts down and untracks
     | .bad => afterEnd (s.set k (release (s.cli k))) k
-    | .silent => s.set k { s.cli k with phase := .authing }
+    -- the authenticator blocks in `recv` (or reads end-of-stream at once if the client is already gone)
+    | .silent =>
+      if (s.cli k).inbox.contains .fin then afterEnd (s.set k (release (s.cli k))) k
+      else s.set k { s.cli k with phase := .authing }
   else serveClient s k
 
 /-! ### pool internals -/
 
 def freeWorkers (s : St) : Nat := s.cfg.nb - s.blocked.length
 
+/-- where a worker leaves the connection it served: dropped (`except EOFError: _drop_connection`), still
+blocked on it, or back with the poller (`_add_inactive_connection`) -/
+def poolPlace (s : St) (k : Nat) (r : Cli × Nat) : St :=
+  match r.1.phase with
+  | .done => { (s.set k { r.1 with inFd := false }) with nextObj := r.2 }
+  | .blocked => { (s.set k r.1) with nextObj := r.2, blocked := k :: s.blocked }
+  | _ => { (s.set k { r.1 with polled := true }) with nextObj := r.2 }
+
 /-- a worker took `k` from the active queue -/
 def poolServeOne (s : St) (k : Nat) : St :=
-  match (poolConsume (s.cli k).inbox (s.cli k) s.nextObj).1.phase with
-  | .done =>
-    { (s.set k (poolConsume (s.cli k).inbox (s.cli k) s.nextObj).1) with
-      nextObj := (poolConsume (s.cli k).inbox (s.cli k) s.nextObj).2, fdToConn := rm k s.fdToConn }
-  | .blocked =>
-    { (s.set k (poolConsume (s.cli k).inbox (s.cli k) s.nextObj).1) with
-      nextObj := (poolConsume (s.cli k).inbox (s.cli k) s.nextObj).2, blocked := k :: s.blocked }
-  | _ =>
-    { (s.set k (poolConsume (s.cli k).inbox (s.cli k) s.nextObj).1) with
-      nextObj := (poolConsume (s.cli k).inbox (s.cli k) s.nextObj).2, pollReg := k :: s.pollReg }
+  poolPlace s k (poolConsume (s.cli k).inbox (s.cli k) s.nextObj)
 
 /-- free workers take descriptors from the queue in FIFO order -/
 def drain : List Nat → St → St
@@ -313,17 +310,18 @@ def drain : List Nat → St → St
 /-- the poller sees `k` readable: unregister, queue -/
 def poolWake (s : St) (k : Nat) : St :=
   if !s.poolUp || (s.cli k).inbox.isEmpty then s
-  else drain (s.queue ++ [k])
-        { (s.set k { s.cli k with phase := .queued }) with pollReg := rm k s.pollReg }
+  else drain (s.queue ++ [k]) (s.set k { s.cli k with phase := .queued, polled := false })
 
 /-- the client a worker is blocked on goes away: EOFError, `_drop_connection`, the worker is free again -/
 def poolUnblock (s : St) (k : Nat) : St :=
-  drain s.queue
-    { (s.set k (endServe (s.cli k))) with blocked := rm k s.blocked, fdToConn := rm k s.fdToConn }
+  drain s.queue { (s.set k { endServe (s.cli k) with inFd := false }) with blocked := rm k s.blocked }
+
+/-- `self.clients.clear()` -/
+def untrackAll (s : St) : St := s.mapCli (fun c => { c with tracked := false })
 
 /-- `ThreadPoolServer._accept_method` succeeded: `fd_to_conn[fd] = conn`, registered, `clients.clear()` -/
 def poolBuild (s : St) (k : Nat) : St :=
-  poolWake { (built s k) with fdToConn := k :: s.fdToConn, pollReg := k :: s.pollReg, clientsSet := [] } k
+  poolWake (untrackAll ((built s k).set k { (built s k).cli k with inFd := true, polled := true })) k
 
 /-- `ThreadPoolServer._accept_method`: the authenticator runs in the accept thread -/
 def poolAccept (s : St) (k : Nat) : St :=
@@ -331,30 +329,31 @@ def poolAccept (s : St) (k : Nat) : St :=
     match (s.cli k).cred with
     | .good => poolBuild s k
     -- `except Exception: ... sock.close(); self.clients.clear()`
-    | .bad => { (s.set k (release (s.cli k))) with clientsSet := [] }
-    | .silent => { (s.set k { s.cli k with phase := .authing }) with acceptBusy := some k }
+    | .bad => untrackAll (s.set k (release (s.cli k)))
+    | .silent =>
+      if (s.cli k).inbox.contains .fin then untrackAll (s.set k (release (s.cli k)))
+      else { (s.set k { s.cli k with phase := .authing }) with acceptBusy := some k }
   else poolBuild s k
 
 /-! ### the accept loop -/
 
 def canAccept (s : St) : Bool := s.listening && s.active && s.acceptAlive && s.acceptBusy.isNone
 
-/-- `Server.accept` returned client `k`: tracked in `clients`, then `_accept_method` -/
+/-- `Server.accept` returned client `k`: `self.clients.add(sock)`, then `_accept_method` -/
 def acceptOne (s : St) (k : Nat) : St :=
   match s.cfg.kind with
   | .threaded =>
-    authServe { (s.set k { s.cli k with srvFd := true, phase := .idle }) with
-                clientsSet := k :: s.clientsSet, accepted := s.accepted + 1 } k
+    authServe { (s.set k { s.cli k with srvFd := true, tracked := true, phase := .idle }) with
+                accepted := s.accepted + 1 } k
   | .forking =>
     -- the child serves with its own copy; the parent closes its copy and untracks at once
-    authServe { (s.set k { s.cli k with srvFd := false, child := true, phase := .idle }) with
-                accepted := s.accepted + 1 } k
+    authServe { (s.set k { s.cli k with child := true, phase := .idle }) with accepted := s.accepted + 1 } k
   | .oneshot =>
-    authServe { (s.set k { s.cli k with srvFd := true, phase := .idle }) with
-                clientsSet := k :: s.clientsSet, accepted := s.accepted + 1, acceptBusy := some k } k
+    authServe { (s.set k { s.cli k with srvFd := true, tracked := true, phase := .idle }) with
+                accepted := s.accepted + 1, acceptBusy := some k } k
   | .pool =>
-    poolAccept { (s.set k { s.cli k with srvFd := true, phase := .idle }) with
-                 clientsSet := k :: s.clientsSet, accepted := s.accepted + 1 } k
+    poolAccept { (s.set k { s.cli k with srvFd := true, tracked := true, phase := .idle }) with
+                 accepted := s.accepted + 1 } k
 
 /-- the accept loop takes waiting connections in order for as long as it is free -/
 def acceptAll : List Nat → St → St
@@ -367,7 +366,7 @@ def acceptAll : List Nat → St → St
 /-- the pool's authenticator (accept thread) reads end-of-stream from the stalled client: the `except`
 branch of `_accept_method`, then the accept loop goes on -/
 def poolAuthGone (s : St) (k : Nat) : St :=
-  acceptAll s.ids { (s.set k (release (s.cli k))) with clientsSet := [], acceptBusy := none }
+  acceptAll s.ids { (untrackAll (s.set k (release (s.cli k)))) with acceptBusy := none }
 
 /-- something arrived for client `k` -/
 def wake (s : St) (k : Nat) : St :=
